@@ -6,8 +6,8 @@ import QipVerif.Lemmas.GateC
 
 `semG N ρ g` is the placed operator a library gate `g` of the circuit IR denotes on an `N`-qubit
 register, for a valuation `ρ` of the symbolic angles: the generated matrices `Gen.G.*` of the
-rotations at the real angle, `e^{iθ}` for a GLOBALPHASE marker, and the exact matrices of the
-fixed gates (`gateE`, mapped to ℂ by `toMatD`).  `denG` multiplies a circuit in order.
+rotations and controlled rotations at the real angle, `e^{iθ}` for a GLOBALPHASE marker, and the
+exact matrices of the fixed gates (`gateE`, mapped to ℂ by `toMatD`).  `denG` multiplies a circuit in order.
 This is the specification object of every "same unitary" theorem (C03, C07, C13 …).
 -/
 namespace QipVerif
@@ -41,6 +41,12 @@ theorem mat1_one : mat1 (1 : Matrix (Fin 2) (Fin 2) ℂ) = 1 := by
 /-- the empty placement (GLOBALPHASE acts on no qubit) -/
 def Tg.empty (N : ℕ) : Tg 0 N := ⟨Fin.elim0, fun a => a.elim0⟩
 
+/-- block_diag(1, M) on two qubits, control first (most significant): the controlled one-qubit
+operator of CRX / CRY / CRZ / CPHASE -/
+noncomputable def ctrl1 (M : Matrix (Fin 2) (Fin 2) ℂ) : Matrix (St 2) (St 2) ℂ :=
+  fun x y => if x 0 = 0 then (if y 0 = 0 ∧ x 1 = y 1 then 1 else 0)
+             else (if y 0 = 0 then 0 else M (x 1) (y 1))
+
 /-- the compact complex matrix of a library gate with real angle θ: (arity, matrix) -/
 noncomputable def compactC (name : GName) (θ : ℝ) : Option (Σ m : ℕ, Matrix (St m) (St m) ℂ) :=
   match name with
@@ -49,6 +55,10 @@ noncomputable def compactC (name : GName) (θ : ℝ) : Option (Σ m : ℕ, Matri
   | .RZ => some ⟨1, mat1 (Gen.G.rz_ θ)⟩
   | .PHASEGATE => some ⟨1, mat1 (Gen.G.phasegate_ θ)⟩
   | .GLOBALPHASE => some ⟨0, GateC.phase θ • (1 : Matrix (St 0) (St 0) ℂ)⟩
+  | .CRX => some ⟨2, ctrl1 (Gen.G.rx_ θ)⟩
+  | .CRY => some ⟨2, ctrl1 (Gen.G.ry_ θ)⟩
+  | .CRZ => some ⟨2, ctrl1 (Gen.G.rz_ θ)⟩
+  | .CPHASE => some ⟨2, ctrl1 (Gen.G.phasegate_ θ)⟩
   | n => match gateE n 0 with
          | some (m, D) => some ⟨m, toMatD m D⟩
          | none => none
